@@ -126,14 +126,28 @@ func (b *builderOptions) Build() (*Biscuit, error) {
 	if v := b.rootKeyID; v != nil {
 		opts = append(opts, WithRootKeyID(*v))
 	}
+	// the token gets its own copies: the builder can still be added to, and
+	// built again, without changing a token it has already built
+	symbols := b.symbols.Clone()
+	blockSymbols := symbols.SplitOff(b.symbolsStart)
+
+	facts := make(datalog.FactSet, len(*b.facts))
+	copy(facts, *b.facts)
+
+	rules := make([]datalog.Rule, len(b.rules))
+	copy(rules, b.rules)
+
+	checks := make([]datalog.Check, len(b.checks))
+	copy(checks, b.checks)
+
 	return newBiscuit(
 		b.rootKey,
-		b.symbols,
+		symbols,
 		&Block{
-			symbols: b.symbols.SplitOff(b.symbolsStart),
-			facts:   b.facts,
-			rules:   b.rules,
-			checks:  b.checks,
+			symbols: blockSymbols,
+			facts:   &facts,
+			rules:   rules,
+			checks:  checks,
 			context: b.context,
 			version: MaxSchemaVersion,
 		},
